@@ -71,6 +71,7 @@ Definition h_xfproto : str := Eval vm_compute in s2l "X-Forwarded-Proto".
 Definition h_xfport : str := Eval vm_compute in s2l "X-Forwarded-Port".
 Definition h_fwd : str := Eval vm_compute in s2l "Forwarded".
 Definition h_fwd_proto : str := Eval vm_compute in s2l "Forwarded Proto=".
+Definition h_fwd_host : str := Eval vm_compute in s2l "Forwarded Host=".
 
 Definition s_star : str := Eval vm_compute in s2l "*".
 Definition s_http : str := Eval vm_compute in s2l "http".
@@ -362,6 +363,8 @@ Definition stage_host (s : pst) : result pst :=
         match rsplit1 forwarded_host [c_colon] with
         | [host; port] =>
           let host := strip host in
+          (* if not host: raise MalformedProxyHeader("Forwarded Host=" if forwarded else "X-Forwarded-Host", ...) *)
+          if negb (truthy host) then Malformed (if opt_truthy (fwd s) then h_fwd_host else h_xfh) else
           let forwarded_port := if negb (beqb (fport s) port) then port else fport s in
           let e1 := set k_server_name host (env s) in
           let e2 := set k_http_host forwarded_host e1 in
@@ -370,6 +373,8 @@ Definition stage_host (s : pst) : result pst :=
         | _ => Exn ValueError     (* unpacking; unreachable, ":" is in the string *)
         end
       else
+        (* if not forwarded_host.strip(): raise MalformedProxyHeader(...) *)
+        if negb (truthy (strip forwarded_host)) then Malformed (if opt_truthy (fwd s) then h_fwd_host else h_xfh) else
         let e1 := set k_server_name forwarded_host (env s) in
         let e2 := set k_http_host forwarded_host e1 in
         let forwarded_port := fport s in
@@ -419,11 +424,14 @@ Definition stage_client (s : pst) : result pst :=
         (if has_char c_colon client_addr && negb (l =? c_rbr) then
            match rsplit1 client_addr [c_colon] with
            | [addr; port] =>
+             (* if not addr.strip(): raise MalformedProxyHeader("Forwarded" if forwarded else "X-Forwarded-For", ...) *)
+             if negb (truthy (strip addr)) then Malformed (if opt_truthy (fwd s) then h_fwd else h_xff) else
              bind (strip_brackets (strip addr)) (fun a =>
              Ok (set k_remote_port (strip port) (set k_remote_addr a (env s))))
            | _ => Exn ValueError
            end
          else
+           if negb (truthy (strip client_addr)) then Malformed (if opt_truthy (fwd s) then h_fwd else h_xff) else
            bind (strip_brackets (strip client_addr)) (fun a =>
            Ok (set k_remote_addr a (env s))))
         (fun e1 =>
